@@ -227,6 +227,8 @@ def type_test(v, names):
         return "list" in short
     if isinstance(v, Arr):
         return "ndarray" in short
+    if isinstance(v, SliceOf):
+        return type_test(v.base, names)        # a[lo:hi] has the type of a
     if isinstance(v, SliceV):
         return "slice" in short
     if isinstance(v, PyDict):
